@@ -38,6 +38,7 @@ func DoCall(k *Key, form string, sh *Shared, h Hooks) (result string, mapViolati
 type Shared struct {
 	Map  map[string]string
 	Opts *pql.CompileOptions
+	n    int // calls made with a caller's own value ("reused" form)
 }
 
 // NewShared builds the shared objects for key k (before the run starts). With zero set the options
@@ -113,7 +114,22 @@ func DoCallKeep(k *Key, form string, sh *Shared, h Hooks) (result string, mapVio
 			// its exported fields to what this call is to be given (a caller may do that between calls)
 			opts = sh.Opts
 			resetExported(opts)
-			if len(k.Params) > 0 {
+			sh.n++
+			switch {
+			case sh.n%2 == 1:
+				// the caller's own map object, emptied and refilled in place between its calls
+				if sh.Map == nil {
+					sh.Map = map[string]string{}
+				}
+				for name := range sh.Map {
+					delete(sh.Map, name)
+				}
+				for _, kv := range k.Params {
+					sh.Map[kv[0]] = kv[1]
+				}
+				watched = sh.Map
+				opts.Parameters = watched
+			case len(k.Params) > 0:
 				watched = k.ParamMap()
 				opts.Parameters = watched
 			}
